@@ -132,6 +132,7 @@ func (w *World) verifyFunc(fn *ssa.Function, c *FuncContract) (rep *FuncReport) 
 		penv := &SpecEnv{e: e, cur: final, old: fr.entry, vars: vars, pkg: funcPkgPath(fn), fr: fr}
 		for _, cl := range c.Ensures {
 			if cl.Free {
+				e.note("free (assumed, unverified) postcondition of %s: %s", e.fnName, cl.Src)
 				continue
 			}
 			st2 := final.clone()
